@@ -2,6 +2,7 @@ package go_clipper2
 
 import (
 	"math"
+	"math/bits"
 )
 
 const (
@@ -20,13 +21,31 @@ func fits31(v int64) bool {
 	return v > -(1<<31) && v < (1<<31)
 }
 
-// crossOf returns ax*by - ay*bx: exactly (in int64) when the operands are small enough,
-// otherwise in float64 (the int64 products would overflow).
+// crossOf returns ax*by - ay*bx: exactly (in int64) when the operands are small enough, otherwise
+// as the exact 128-bit difference of the two products converted to float64, so that only the
+// magnitude is rounded and the sign (and zero) of the result is always right.
 func crossOf(ax, ay, bx, by int64) float64 {
 	if fits31(ax) && fits31(ay) && fits31(bx) && fits31(by) {
 		return float64(ax*by - ay*bx)
 	}
-	return float64(ax)*float64(by) - float64(ay)*float64(bx)
+	h1, l1 := mulInt64(ax, by)
+	h2, l2 := mulInt64(ay, bx)
+	lo, borrow := bits.Sub64(l1, l2, 0)
+	hi := h1 - h2 - int64(borrow)
+	neg := hi < 0
+	uhi, ulo := uint64(hi), lo
+	if neg {
+		ulo = ^ulo + 1
+		uhi = ^uhi
+		if ulo == 0 {
+			uhi++
+		}
+	}
+	f := float64(uhi)*18446744073709551616.0 + float64(ulo)
+	if neg {
+		return -f
+	}
+	return f
 }
 
 // dotOf returns ax*bx + ay*by with the same overflow handling as crossOf.
